@@ -1,0 +1,123 @@
+//go:build verif
+
+// Contracts for package metrics, checked by /verif/govc (comment-only file; compiled only
+// with the build tag "verif", which no build of the application uses).
+package metrics
+
+// ---------------------------------------------------------------------------
+// Counters: the value equals the number of increments applied (sync/atomic is modelled as a
+// sequentially consistent read-modify-write; concurrency is C11's business).
+
+//@ func (*Counter).Inc
+//@   modifies c.*
+//@   ensures[C18.counter-inc] c.value == old(c.value) + 1 && c.name == old(c.name) && c.tags == old(c.tags)
+//@ func (*Counter).Add
+//@   modifies c.*
+//@   ensures[C18.counter-add] c.value == old(c.value) + value && c.name == old(c.name) && c.tags == old(c.tags)
+//@ func (*Counter).Value
+//@   ensures[C18.counter-value] result == c.value
+//@ func (*Counter).Reset
+//@   modifies c.*
+//@   ensures[C18.counter-reset] c.value == 0
+//@ func NewCounter
+//@   ensures[C18.counter-new] result != nil && fresh(result) && result.value == 0 && result.name == name && result.tags == tags
+
+// ---------------------------------------------------------------------------
+// Histograms
+
+//@ pure func wfHistogram(h *Histogram) bool = len(h.counts) == len(h.buckets) + 1
+
+//@ func NewHistogramWithBuckets
+//@   ensures[C18.hist-new] result != nil && fresh(result) && wfHistogram(result) && result.count == 0 && result.sum == 0.0 && result.buckets == buckets
+//@   ensures[C18.hist-new-zero] forall j int :: 0 <= j && j < len(result.counts) ==> result.counts[j] == 0
+
+// Observe: one more observation, the exact sum, exactly one bucket counter incremented — the
+// first bucket whose bound is >= value, the overflow bucket if there is none.
+//@ func (*Histogram).Observe
+//@   requires wfHistogram(h)
+//@   modifies h.*, h.counts[*]
+//@   ensures[C18.observe-count] h.count == old(h.count) + 1
+//@   ensures[C18.observe-sum] h.sum == old(h.sum) + value
+//@   ensures[C18.observe-shape] h.buckets == old(h.buckets) && h.counts == old(h.counts) && wfHistogram(h)
+//@   ensures[C18.observe-step] forall j int :: 0 <= j && j < len(h.counts) ==> h.counts[j] == old(h.counts[j]) || h.counts[j] == old(h.counts[j]) + 1
+//@   ensures[C18.observe-one] forall j, k int :: 0 <= j && j < len(h.counts) && 0 <= k && k < len(h.counts) && h.counts[j] == old(h.counts[j]) + 1 && h.counts[k] == old(h.counts[k]) + 1 ==> j == k
+//@   ensures[C18.observe-first-fit] forall j int :: 0 <= j && j < len(h.buckets) && value <= h.buckets[j] && (forall m int :: 0 <= m && m < j ==> value > h.buckets[m]) ==> h.counts[j] == old(h.counts[j]) + 1
+//@   ensures[C18.observe-overflow] (forall m int :: 0 <= m && m < len(h.buckets) ==> value > h.buckets[m]) ==> h.counts[len(h.buckets)] == old(h.counts[len(h.buckets)]) + 1
+//@ loop 1
+//@   invariant forall j int :: 0 <= j && j < $i ==> value > h.buckets[j]
+//@   invariant forall j int :: 0 <= j && j < len(h.counts) ==> h.counts[j] == old(h.counts[j])
+//@   invariant h.count == old(h.count) + 1 && h.sum == old(h.sum) + value && h.buckets == old(h.buckets) && h.counts == old(h.counts)
+
+//@ func (*Histogram).Count
+//@   ensures[C18.hist-count] result == h.count
+//@ func (*Histogram).Sum
+//@   ensures[C18.hist-sum] result == h.sum
+//@ func (*Histogram).Mean
+//@   ensures[C18.hist-mean] (h.count == 0 ==> result == 0.0) && (h.count != 0 ==> result == h.sum / real(h.count))
+
+// Percentile: never panics on a well-formed histogram with at least one bucket, and returns
+// 0 or one of the bucket bounds. (Monotonicity in p: bounded check, see the evidence.)
+//@ func (*Histogram).Percentile
+//@   requires wfHistogram(h) && len(h.buckets) >= 1
+//@   ensures[C18.percentile-range] result == 0.0 || (exists i int :: 0 <= i && i < len(h.buckets) && result == h.buckets[i])
+
+// ---------------------------------------------------------------------------
+// Series identity: the key is a function of the metric name and of the CONTENT of the tag map.
+// That functional dependence is what the order-independence obligation on the loop over the
+// tags (static obligation "maprange", C18) establishes for the real body; it is recorded here as
+// a trusted postcondition so that callers can use it. The empty-tags clause is proved.
+
+//@ pure func keyOf(name string, d _, v _) string
+//@ pure func seriesKey(name string, tags map[string]string) string = keyOf(name, mapdom(tags), mapval(tags))
+
+//@ func (*Collector).metricKey
+//@   ensures[C18.key-empty-tags] len(tags) == 0 ==> result == name
+//@   trusted-ensures[C18.key-fn] result == seriesKey(name, tags)
+//@ loop 1
+//@   invariant fresh(names)
+
+// Collector.Counter / Histogram: same name and same tag content ==> the same metric object;
+// a new series is created exactly when the key is new, and no other series is touched.
+//@ pure func countersWF(mc *Collector) bool = mc.counters != nil && (forall k string :: (k in mc.counters) ==> mc.counters[k] != nil)
+
+//@ func (*Collector).Counter
+//@   requires countersWF(mc)
+//@   modifies mc.counters[*]
+//@   ensures[C18.counter-identity] old(seriesKey(name, tags) in mc.counters) ==> result == old(mc.counters[seriesKey(name, tags)])
+//@   ensures[C18.counter-create] !old(seriesKey(name, tags) in mc.counters) ==> fresh(result) && result.value == 0
+//@   ensures[C18.counter-registered] result != nil && (seriesKey(name, tags) in mc.counters) && mc.counters[seriesKey(name, tags)] == result
+//@   ensures[C18.counter-others] forall k string :: k != seriesKey(name, tags) ==> ((k in mc.counters) <==> old(k in mc.counters)) && mc.counters[k] == old(mc.counters[k])
+//@   ensures[C18.counter-wf] countersWF(mc)
+
+//@ pure func histogramsWF(mc *Collector) bool = mc.histograms != nil && (forall k string :: (k in mc.histograms) ==> mc.histograms[k] != nil && wfHistogram(mc.histograms[k]))
+
+//@ func NewHistogram
+//@   ensures[C18.hist-default] result != nil && fresh(result) && wfHistogram(result) && result.count == 0 && result.sum == 0.0 && len(result.buckets) == 15
+//@   ensures[C18.hist-default-sorted] forall a, b int :: 0 <= a && a < b && b < len(result.buckets) ==> result.buckets[a] < result.buckets[b]
+
+//@ func (*Collector).Histogram
+//@   requires histogramsWF(mc)
+//@   modifies mc.histograms[*]
+//@   ensures[C18.histogram-identity] old(seriesKey(name, tags) in mc.histograms) ==> result == old(mc.histograms[seriesKey(name, tags)])
+//@   ensures[C18.histogram-create] !old(seriesKey(name, tags) in mc.histograms) ==> fresh(result) && result.count == 0
+//@   ensures[C18.histogram-registered] result != nil && wfHistogram(result) && (seriesKey(name, tags) in mc.histograms) && mc.histograms[seriesKey(name, tags)] == result
+//@   ensures[C18.histogram-others] forall k string :: k != seriesKey(name, tags) ==> ((k in mc.histograms) <==> old(k in mc.histograms)) && mc.histograms[k] == old(mc.histograms[k])
+
+// ---------------------------------------------------------------------------
+// The monitor accounts for every event: each recorded search applies exactly two counter
+// increments (the per-cache-outcome total and exactly one of hit / miss) and two histogram
+// observations (duration and query length); each recorded database operation one of each.
+// calls(f) is the ghost number of calls of the contracted function f on the path.
+
+//@ pure func collectorWF(mc *Collector) bool = mc != nil && countersWF(mc) && histogramsWF(mc) && mc.gauges != nil && mc.timers != nil && (forall k string :: (k in mc.timers) ==> mc.timers[k] != nil && mc.timers[k].histogram != nil && wfHistogram(mc.timers[k].histogram)) && (forall k string :: (k in mc.gauges) ==> mc.gauges[k] != nil)
+
+//@ func (*PerformanceMonitor).RecordSearchOperation
+//@   requires collectorWF(pm.collector)
+//@   modifies pm.collector.counters[*], pm.collector.histograms[*], pm.collector.gauges[*], pm.collector.timers[*], heap(Counter), heap(Gauge), heap(Histogram), heap(int64)
+//@   ensures[C18.search-accounted] pm.enabled ==> calls("(*metrics.Counter).Inc") == 2 && calls("(*metrics.Histogram).Observe") == 2
+//@   ensures[C18.search-disabled] !pm.enabled ==> calls("(*metrics.Counter).Inc") == 0 && calls("(*metrics.Histogram).Observe") == 0
+
+//@ func (*PerformanceMonitor).RecordDatabaseOperation
+//@   requires collectorWF(pm.collector)
+//@   modifies pm.collector.counters[*], pm.collector.histograms[*], pm.collector.gauges[*], pm.collector.timers[*], heap(Counter), heap(Gauge), heap(Histogram), heap(int64)
+//@   ensures[C18.dbop-accounted] pm.enabled ==> calls("(*metrics.Counter).Inc") == 1 && calls("(*metrics.Histogram).Observe") == 1
